@@ -64,6 +64,9 @@ func (b *Bytes) View(start, end int64) (Blob, error) {
 	if end < 0 || end > int64(b.Len()) {
 		return nil, fmt.Errorf("End index out of bounds: %d", end)
 	}
+	if start > end {
+		return nil, fmt.Errorf("Start index %d is greater than end index %d", start, end)
+	}
 	b.mu.Lock()
 	defer b.mu.Unlock()
 	newB := NewBytes(b.bytes[start:end])
@@ -97,6 +100,9 @@ func (b *Bytes) Set(src Blob, destStart int64) (n int, err error) {
 	if destStart >= int64(b.Len()) && destStart == 0 && src.Len() > 0 {
 		return 0, fmt.Errorf("Offset out of bounds: %d", destStart)
 	}
+	if destStart > int64(b.Len()) {
+		return 0, fmt.Errorf("Offset out of bounds: %d", destStart)
+	}
 	b.mu.Lock()
 	n = copy(b.bytes[destStart:], src.Bytes())
 	b.mu.Unlock()
@@ -105,6 +111,9 @@ func (b *Bytes) Set(src Blob, destStart int64) (n int, err error) {
 
 // Grow implements Blob.
 func (b *Bytes) Grow(offset int64) error {
+	if offset < 0 {
+		return fmt.Errorf("Grow offset must not be negative: %d", offset)
+	}
 	b.mu.Lock()
 	b.bytes = append(b.bytes, make([]byte, offset)...)
 	atomic.StoreInt64(&b.length, int64(len(b.bytes)))
@@ -114,6 +123,9 @@ func (b *Bytes) Grow(offset int64) error {
 
 // Truncate implements Blob.
 func (b *Bytes) Truncate(size int64) error {
+	if size < 0 {
+		return fmt.Errorf("Truncate size must not be negative: %d", size)
+	}
 	if int64(b.Len()) < size {
 		return nil
 	}
